@@ -3,3 +3,6 @@ pub mod e2_views;
 pub mod e3_bank;
 pub mod e6_codec;
 pub mod e4_staking;
+pub mod e1_chain;
+pub mod e1_gen;
+pub mod e1_run;
